@@ -49,6 +49,7 @@ func runC01(c *Ctx) {
 	c01Small(c)
 	nilListIsNullOnly(c)
 	layoutAgreement(c)
+	adapterWritesOnError(c)
 }
 
 // c01SelectionsPrivate: the merged sub-selection of a collected field is a slice private to that CollectFields call.  Fields
